@@ -433,3 +433,5 @@ w("C05", "hypothesis backend writes the groups on the shared check again", BP + 
   "            if self.check.groupby is None:\n                return super().preprocess(check_obj, key)\n", "            self.check.groups = self.check.samples\n            if self.check.groupby is None:\n                return super().preprocess(check_obj, key)\n")
 w("C05", "check backend caches on the shared check", BP + "checks.py",
   "        if self.check.element_wise:\n            return check_obj.map(self.check_fn)\n", "        if self.check.element_wise:\n            self.check.statistics[\"_seen\"] = len(check_obj)\n            return check_obj.map(self.check_fn)\n")
+w("C01", "dataframe dtype overrides the index dtype again", BP + "container.py",
+  "                if schema.dtype is not None and not is_index_component:", "                if schema.dtype is not None:")
